@@ -260,6 +260,12 @@ func init() {
 		c.addFact(Eq(App("be", SInt, content, Num(0), ln), v))
 		return s, st
 	})
+	// SetString(s, base): the receiver takes an unspecified value (the parse of s); returns (receiver, ok)
+	reg("(*math/big.Int).SetString", bigW, func(fr *Frame, st *State, a []*Val, cc *ssa.CallCommon, pos token.Pos) (*Val, *State) {
+		fr.bigRecvCheck(st, a[0], pos)
+		setBigval(st, a[0].X, Fresh("big.parsed", SInt))
+		return &Val{K: KTuple, T: cc.Signature().Results(), Fs: []*Val{a[0], boolVal(Fresh("big.parsed#ok", SBool))}}, st
+	})
 	reg("(*math/big.Int).SetBytes", bigW, func(fr *Frame, st *State, a []*Val, cc *ssa.CallCommon, pos token.Pos) (*Val, *State) {
 		fr.bigRecvCheck(st, a[0], pos)
 		arr := st.heapGet("S:byte", SArr(SInt, SArr(SInt, SInt)))
@@ -351,7 +357,7 @@ func init() {
 		"fmt.Sprintf", "fmt.Sprint", "fmt.Println", "fmt.Printf", "fmt.Sprintln", "regexp.MatchString", "reflect.DeepEqual", "github.com/ethereum/go-ethereum/common.IsHexAddress", "strings.ToLower", "crypto/ed25519.GenerateKey", "crypto/ed25519.Sign", "github.com/tyler-smith/go-bip39.NewMnemonic", "github.com/tyler-smith/go-bip39.NewSeed", "crypto/hmac.New", "(hash.Hash).Write", "(time.Time).UTC", "(*regexp.Regexp).MatchString", "strings.TrimRight", "strings.TrimLeft", "strings.TrimSpace", "bytes.NewReader", "(*encoding/base64.Encoding).DecodeString", "time.Now", "time.Since", "(time.Time).Sub", "(time.Time).Add", "time.Unix",
 		"(github.com/inconshreveable/log15.Logger).Trace", "github.com/inconshreveable/log15.Error", "github.com/inconshreveable/log15.Info", "github.com/inconshreveable/log15.Warn", "github.com/inconshreveable/log15.Debug", "github.com/inconshreveable/log15.Crit", "(time.Duration).Seconds",
 		"(*sync.WaitGroup).Add", "(*sync.WaitGroup).Done", "(*sync.WaitGroup).Wait", "runtime/debug.Stack", "strings.ToLower", "strings.ToUpper",
-		"encoding/hex.EncodeToString", "strconv.Itoa", "strconv.FormatUint", "strconv.FormatInt"} {
+		"encoding/hex.EncodeToString", "encoding/hex.DecodeString", "strconv.Itoa", "strconv.FormatUint", "strconv.FormatInt"} {
 		reg(n, nil, nop)
 	}
 	// ABI encoding/decoding (reflection-driven, NOT verified). ASSUMED: both are deterministic functions of their inputs.
@@ -1220,6 +1226,10 @@ func (fr *Frame) abiDecoded(st *State, t types.Type, path string, name, bv *Term
 	for _, f := range facts {
 		c.addFact(f)
 	}
+	if v.K == KSlice && v.Len != nil {
+		// a list of anything else: unspecified elements, but its length is a function of the input (abidec_<path>_len)
+		c.addFact(Eq(v.Len, App(fn+"_len", SInt, name, bv)))
+	}
 	return v
 }
 
@@ -1280,7 +1290,10 @@ func (fr *Frame) packArgs(st *State, v ssa.Value) (args []*Term, sig string, ok 
 			args, sig = append(args, arrAsInt(x)), sig+"I"
 		case KSlice:
 			if tstr(under(t).(*types.Slice).Elem()) != "byte" && tstr(under(t).(*types.Slice).Elem()) != "uint8" {
-				return nil, "", false
+				// a list of anything else enters the packed value through its length and an unspecified token standing for
+				// its elements (fresh per call: two packed lists are never assumed equal)
+				args, sig = append(args, x.Len, Fresh("abi.list", SInt)), sig+"L"
+				continue
 			}
 			args, sig = append(args, fr.C.bytesVal(Select(bytesHeap(), x.X), x.Off, x.Len)), sig+"I"
 		case KPtr:
